@@ -6,6 +6,8 @@
 //!   (xreftable xBYTES)                  the table parser, observed through load_mem on a minimal file
 //!   (objstm (d ...) xCONTENT)           ObjectStream::new
 //!   (asset NAME)                        a file of /repo/assets must load
+//!   (ahx xENCODED xPLAIN|none)          Stream::decompressed_content with Filter ASCIIHexDecode; FAIL when a plain text
+//!                                       is given (the case is a legal encoding of it) and is not what comes out
 use lvh::conv::*;
 use lvh::sx::Sx;
 use lopdf::xref::{Xref, XrefEntry};
@@ -172,6 +174,29 @@ fn main() {
                         "ok".into(),
                     ),
                     Err(e) => (err_sx(&e), "ok".into()),
+                }
+            }
+            Some("ahx") if a.len() == 2 => {
+                let c = match a[0].as_bytes() {
+                    Some(c) => c,
+                    None => return (Sx::id("badcase"), "skip".into()),
+                };
+                let mut d = Dictionary::new();
+                d.set("Filter", Object::Name(b"ASCIIHexDecode".to_vec()));
+                let s = Stream { dict: d, content: c, allows_compression: true, start_position: None };
+                match s.decompressed_content() {
+                    Ok(v) => {
+                        let verdict = match a[1].as_bytes() {
+                            Some(want) if want != v => "FAIL ASCIIHexDecode does not return the encoded data".to_string(),
+                            _ => "ok".to_string(),
+                        };
+                        (Sx::tagged("ok", vec![Sx::bytes(&v)]), verdict)
+                    }
+                    Err(lopdf::Error::IO(e)) if e.kind() == std::io::ErrorKind::InvalidData => {
+                        let verdict = if a[1].as_bytes().is_some() { "FAIL ASCIIHexDecode rejects a legal encoding".to_string() } else { "ok".to_string() };
+                        (Sx::tagged("err", vec![Sx::id("io-data")]), verdict)
+                    }
+                    Err(e) => (err_sx(&e), "FAIL unexpected error class".into()),
                 }
             }
             Some("xreftable") if a.len() == 1 => {
